@@ -502,3 +502,24 @@ Proof.
   destruct (garble_gate pi r [a; b] id (mkGate 0 1 0 o)) as [[c id'] rows].
   apply G. destruct o; (right; reflexivity) || (left; reflexivity).
 Qed.
+
+(* ------------------------------------------------------------------ *)
+(** * The reference meaning ignores gc instructions *)
+From Mpc Require Import Lang.GcProof.
+Lemma ssa_steps_filter circs : forall l st,
+  ssa_steps circs l st = ssa_steps circs (filter not_gc l) st.
+Proof.
+  induction l as [|s l IH]; intros st; [reflexivity|]. cbn [filter].
+  destruct (not_gc s) eqn:E.
+  - cbn [ssa_steps]. destruct (ssa_step circs s st); [apply IH | reflexivity].
+  - cbn [ssa_steps]. unfold not_gc in E. destruct st as [e ret]. unfold ssa_step.
+    destruct (iop s); try discriminate. apply IH.
+Qed.
+
+Theorem ssa_ignores_gc p concat deep steps g xy :
+  forallb not_gc steps = true -> gc_gen concat deep steps = Some g ->
+  ssa_eval p g xy = ssa_eval p steps xy.
+Proof.
+  intros Hn Hg. unfold ssa_eval. rewrite ssa_steps_filter.
+  rewrite (gc_only_inserts concat deep steps g Hn Hg). reflexivity.
+Qed.
